@@ -96,7 +96,9 @@ def run_harness(binary, mode, inp, timeout=600, env_extra=None, cwd=None, flags=
     except subprocess.TimeoutExpired:
         return None, "harness timeout after %ds" % timeout
     if not os.path.exists(fout):
-        return None, "harness produced no output (exit %d): %s" % (r.returncode, (r.stdout + r.stderr)[-3000:])
+        txt = r.stdout + r.stderr
+        return None, "harness produced no output (exit %d): %s%s" % (r.returncode, txt[:1500] + ("\n[...]\n" if len(txt) > 4500 else ""),
+                                                                     txt[1500:][-3000:] if len(txt) > 1500 else "")
     try:
         with open(fout) as fh:
             obj = json.load(fh)
